@@ -434,6 +434,26 @@ def runOp (op : String) (a : List String) : Option String :=
     pure (match Rng.generateEntropy n t with | some (b, _) => "ok " ++ hx b | none => "err")
   | op, args => ((Driver.runFieldOp op args).orElse fun _ => Driver.runMemOp op args).orElse fun _ => Driver.runImplOp op args
 
+/-- token list split at the "|" tokens (`seq` lines) -/
+def splitBar (ts : List String) : List (List String) :=
+  let r := ts.foldl (fun (st : List String × List (List String)) t =>
+    if t == "|" then ([], st.2 ++ [st.1.reverse]) else (t :: st.1, st.2)) ([], [])
+  r.2 ++ [r.1.reverse]
+
+/-- ops that may appear inside a `seq` line (same list as harness/main.go `seqOps`) -/
+def seqOps : List String := ["b58.dec", "b58.cdec", "b58.enc", "b58.cenc", "der.parse", "der.lax", "der.ser", "wif.dec", "wif.enc",
+  "addr", "hash.sha256", "hash.sha256d", "hash.ripemd160", "hash.hash160", "parsepub", "serpub", "privbytes", "curve.add",
+  "curve.double", "curve.smul", "curve.sbmul", "curve.oncurve", "verify", "compact.recover", "compact.sign", "ecdh", "bip39.seed",
+  "bip39.mn", "dpath.fwd", "dpath.back", "env.valid", "json.quote", "json.unquote", "json.roundtrip"]
+
+/-- `seq l1 | l2 | …`: the model is a pure function, so the answer is the answers of the sub-lines, joined the same way -/
+def runSeq (rest : List String) : String :=
+  let subs := splitBar rest
+  if subs.any (fun s => match s with | op :: _ => !(seqOps.contains op) | [] => true) then "bad-op"
+  else String.intercalate " | " (subs.map fun s => match s with
+    | op :: args => (runOp op args).getD "bad-op"
+    | [] => "bad-op")
+
 partial def loop (hin hout : IO.FS.Stream) (c : Cache) : IO Unit := do
   let line ← hin.getLine
   if line.isEmpty then return ()
@@ -453,6 +473,7 @@ partial def loop (hin hout : IO.FS.Stream) (c : Cache) : IO Unit := do
      | some r => hout.putStrLn r
      | none => hout.putStrLn "bad-op")
     loop hin hout c
+  | "seq" :: rest => hout.putStrLn (runSeq rest); loop hin hout c
   | op :: args =>
     match runOp op args with
     | some r => hout.putStrLn r
